@@ -22,15 +22,6 @@ theorem unifyLaws_simple : UnifyLaws Env.simple where
         rw [hall x (by simp [hx])]
         exact equals_self hw
       simpa [Env.simple] using this
-  repl := by
-    intro ts u oe hu hall
-    cases ts with
-    | nil => simp [Env.unifyG] at hu
-    | cons a rest =>
-      simp only [Env.unifyG, Env.simple, List.isEmpty_cons, Bool.false_eq_true, if_false] at hu
-      split at hu
-      · simp at hu; subst hu; exact hall a (by simp)
-      · simp at hu
 
 theorem setLaws_simple : SetLaws Env.simple where
   hash_ok := fun _ _ => .inl ⟨0, rfl⟩
@@ -91,26 +82,26 @@ end
 /-! ### `Convert` and the conversions `GetConversion*` return -/
 
 /-- what the placeholder-free theorems assume of a (value, target type) pair -/
-structure RegularPair (v : Value) (want : Ty) : Prop where
+structure RegularPair (E : Env) (v : Value) (want : Ty) : Prop where
   wt : Value.wt v = true
   wfT : want.wf = true
   noDyn : want.hasDyn = false
-  reg : regular v.ty want = true
+  reg : regular E v.ty want = true
 
-theorem RegularPair.conds {v : Value} {want : Ty} (h : RegularPair v want) : Conds v.ty want v := by
+theorem RegularPair.conds {E : Env} {v : Value} {want : Ty} (h : RegularPair E v want) : Conds E v.ty want v := by
   have hw := h.wt
   simp only [Value.wt, Bool.and_eq_true, Bool.not_eq_true'] at hw
   exact ⟨rfl, hw.1.1, h.wfT, hw.1.2, h.noDyn, h.reg, hw.2⟩
 
 /-- a conversion obtained from `getConversion` for the value's type -/
 theorem apply_ty {E : Env} (hU : UnifyLaws E) {v r : Value} {want : Ty} {uns : Bool} {p : Plan} {fuel : Nat}
-    (hp : RegularPair v want) (hg : getConv E v.ty want uns = some p) (h : apply E fuel p v = .ok r) :
+    (hp : RegularPair E v want) (hg : getConv E v.ty want uns = some p) (h : apply E fuel p v = .ok r) :
     r.ty = want.stripOpt := by
   obtain ⟨c, hc, rfl⟩ := Option.map_eq_some_iff.mp hg
   exact recOK_apply hU fuel v.ty want uns c v r hc hp.conds h
 
 theorem convert_ty {E : Env} (hU : UnifyLaws E) {v r : Value} {want : Ty} {fuel : Nat}
-    (hp : RegularPair v want) (h : convert E fuel v want = .ok r) : r.ty = want.stripOpt := by
+    (hp : RegularPair E v want) (h : convert E fuel v want = .ok r) : r.ty = want.stripOpt := by
   unfold convert convertWith at h
   split at h
   · rename_i he
@@ -127,7 +118,7 @@ theorem convert_identity (E : Env) (fuel : Nat) (v : Value) (want : Ty)
   simp [convert, convertWith, h]
 
 theorem convert_idempotent {E : Env} (hU : UnifyLaws E) {v r : Value} {want : Ty} {fuel fuel' : Nat}
-    (hp : RegularPair v want) (h : convert E fuel v want = .ok r) : convert E fuel' r want = .ok r := by
+    (hp : RegularPair E v want) (h : convert E fuel v want = .ok r) : convert E fuel' r want = .ok r := by
   apply convert_identity
   rw [convert_ty hU hp h]
   exact equals_self (wf_stripOpt want hp.wfT)
